@@ -181,7 +181,7 @@ func c13Schedules(seed uint64, r0 *Resp, thorough bool) []c13Sched {
 
 type c13State struct {
 	c     *Ctx
-	pools [3]*Pool // GOMAXPROCS 1, 4, 16
+	pools [5]*Pool // GOMAXPROCS 1, 4, 16, 2, 3
 }
 
 func runC13(c *Ctx) error {
@@ -195,9 +195,11 @@ func runC13(c *Ctx) error {
 		nfid = envInt("VERIF_C13_FIDELITY", 200)
 	}
 	st := &c13State{c: c}
-	st.pools[0] = NewPool(c.sc.Worker, max(2, c.Workers/2), 1)
+	st.pools[0] = NewPool(c.sc.Worker, max(2, c.Workers*3/8), 1)
 	st.pools[1] = NewPool(c.sc.Worker, max(1, c.Workers/4), 4)
 	st.pools[2] = NewPool(c.sc.Worker, max(1, c.Workers/4), 16)
+	st.pools[3] = NewPool(c.sc.Worker, max(1, c.Workers/8), 2)
+	st.pools[4] = NewPool(c.sc.Worker, max(1, c.Workers/8), 3)
 	defer func() {
 		for _, p := range st.pools {
 			p.Close()
@@ -275,7 +277,8 @@ func (st *c13State) program(i int, thorough bool) error {
 	}
 	scheds := c13Schedules(seed, r0, thorough)
 	// the pure process dimension: the reference schedule again, in other processes
-	scheds = append(scheds, c13Sched{name: "same-schedule-other-process", cfg: s0(), gmp: 1}, c13Sched{name: "same-schedule-other-process", cfg: s0(), gmp: 2})
+	scheds = append(scheds, c13Sched{name: "same-schedule-other-process", cfg: s0(), gmp: 1}, c13Sched{name: "same-schedule-other-process", cfg: s0(), gmp: 2},
+		c13Sched{name: "same-schedule-other-process", cfg: s0(), gmp: 3}, c13Sched{name: "same-schedule-other-process", cfg: s0(), gmp: 4})
 	if uncontrolled > 0 {
 		for k := 0; k < 6; k++ {
 			scheds = append(scheds, c13Sched{name: "same-schedule-other-process", cfg: s0(), gmp: k % 3})
@@ -405,18 +408,15 @@ func (c *Ctx) candidate13(caseIdx int, prog *Prog, sd c13Sched, target string) {
 		if c.knownTotal() > hitsBefore {
 			return // it is a listed known finding
 		}
-		if sd.name == "same-schedule-other-process" {
-			// not reproducible with one fresh pair: process state left by an earlier
-			// compilation, or run-to-run variation
-			if !c.warmSearch("c13", caseIdx, c.ncases, prog, AllTargets, target) {
-				c.confirmUnseamed(caseIdx, prog, target)
-			}
-			return
-		}
+		// not reproducible from one cold pair: process state left by an earlier
+		// compilation, or something of the process itself (each schedule runs in
+		// a worker pool with its own GOMAXPROCS), or run-to-run variation
 		c.ev.Count("candidates_not_reproducible_from_a_cold_process", 1)
 		if !c.warmSearch("c13", caseIdx, c.ncases, prog, AllTargets, target) {
-			c.logf("candidate (case %d, %s, %s) reproduced neither in a fresh process nor in a warm session: not reported", caseIdx, sd.name, target)
-			c.ev.Count("unconfirmed_candidates", 1)
+			if !c.confirmUnseamed(caseIdx, prog, target) {
+				c.logf("candidate (case %d, %s, %s) reproduced neither in a fresh process, nor in a warm session, nor across 12 fresh processes under GOMAXPROCS 1/4/16: not reported", caseIdx, sd.name, target)
+				c.ev.Count("unconfirmed_candidates", 1)
+			}
 		}
 		return
 	}
@@ -547,12 +547,12 @@ func (c *Ctx) candidate13(caseIdx int, prog *Prog, sd c13Sched, target string) {
 
 // confirmUnseamed handles "identical schedule, different process, different
 // output": run the reference schedule in several fresh processes.
-func (c *Ctx) confirmUnseamed(caseIdx int, prog *Prog, target string) {
+func (c *Ctx) confirmUnseamed(caseIdx int, prog *Prog, target string) bool {
 	text := prog.Render()
 	sigs := map[string]int{}
 	var first, other *Resp
-	for k := 0; k < 12; k++ {
-		r, err := DoFresh(c.sc.Worker, &Req{Op: "gen", DSL: []byte(text), History: AllTargets, Sched: s0(), WantBytes: true}, []int{1, 4, 16}[k%3])
+	for k := 0; k < 15; k++ {
+		r, err := DoFresh(c.sc.Worker, &Req{Op: "gen", DSL: []byte(text), History: AllTargets, Sched: s0(), WantBytes: true}, []int{1, 4, 16, 2, 3}[k%5])
 		if err != nil || r.TimedOut {
 			continue
 		}
@@ -568,9 +568,7 @@ func (c *Ctx) confirmUnseamed(caseIdx int, prog *Prog, target string) {
 		}
 	}
 	if len(sigs) < 2 || other == nil {
-		c.logf("candidate (case %d, same schedule in another process, %s) did not reproduce in 12 fresh processes: not reported", caseIdx, target)
-		c.ev.Count("unconfirmed_candidates", 1)
-		return
+		return false
 	}
 	ts := diffTargets(first, other)
 	file, line, l0, l1, diffs := "", 0, "", "", []string(nil)
@@ -580,8 +578,9 @@ func (c *Ctx) confirmUnseamed(caseIdx int, prog *Prog, target string) {
 	sig := "C13|lib|" + ts[0] + "|unseamed|"
 	rs := s0()
 	rf := &ReplayFile{Property: "C13", Kind: "lib-c13-unseamed", RunSeed: c.Seed, Case: caseIdx, DSL: text, History: AllTargets, Sched: &rs, RefSched: &rs, Target: ts[0],
-		Expect: map[string]any{"file": file, "line": line, "ref_line": l0, "got_line": l1, "distinct_outputs_in_12_fresh_processes": len(sigs)}}
+		Expect: map[string]any{"file": file, "line": line, "ref_line": l0, "got_line": l1, "distinct_outputs_in_15_fresh_processes": len(sigs)}}
 	c.report(sig, fmt.Sprintf("target %s: %s differs between fresh processes running the IDENTICAL schedule (a nondeterminism source outside every seam; replays as \"varies between processes\"): line %d %q vs %q", ts[0], file, line, clip(l0, 120), clip(l1, 120)), diffs, rf)
+	return true
 }
 
 func firstFileDiff(sa, sb *Step) (file string, line int, l0, l1 string, diffs []string) {
